@@ -14,7 +14,7 @@ func init() {
 		Explanation: "Decides the PERIPHERY of rebalance convergence — necessary structural conditions: (R1) lifecycle callbacks are bracketed on every path of Rebalance (with Close inlined) and of the timer function (with Open inlined); " +
 			"(R2) the debounce arm (balancing ∧ timer≠nil) touches nothing but the timer, and a timer is Reset only after Stop() returned true (resetting a fired AfterFunc timer would run the reopen twice); " +
 			"(R3) balancing←true dominates the Close(false), wait() closes the stop channel only when ¬balancing, and in the timer function Open returns before balancing←false; (R4) after rebalanceLock.Lock every path arms exactly one AfterFunc with the reopen function, which defers the Unlock first thing; " +
-			"(R5) Open always asks VBucketDiscovery.Get and Checkpoint.Load afresh; the delay is the constant 0 iff membership type is dynamic; (R6) a repeated membership causes no notification (C10.R1); (R7) the bus listener forwards every notification to Stream.Rebalance unconditionally. " +
+			"(R5) Open always asks VBucketDiscovery.Get and Checkpoint.Load afresh; the delay is the constant 0 iff membership type is dynamic; (R6) a repeated membership causes no notification (C10.R1); (R7) the bus listener forwards every notification to Stream.Rebalance unconditionally; (R9) because the debounce test reads the balancing state outside the rebalance lock, the listener is subscribed with serialised delivery. " +
 			"NOT decided: 'closed once / reopened exactly once per burst on the most recent membership' and the spacing relative to the delay (timer and interleaving behaviour).",
 		Assumptions: []string{"time.AfterFunc runs its function once per arming; Timer.Stop reports whether it prevented the run"},
 		Rules: []RuleDef{
@@ -26,6 +26,7 @@ func init() {
 			{ID: "C11.R8", Text: "closed once: the stream close covers every assigned vBucket (same rule as C13.R8)", Run: closeAllRange},
 			{ID: "C11.R6", Text: "a repeated membership causes no notification (same rule as C10.R1)", Run: c10r1},
 			{ID: "C11.R7", Text: "the bus listener subscribed by the client calls Stream.Rebalance on every path (no notification is dropped while closed or reopening)", Run: c11r7},
+			{ID: "C11.R9", Text: "notifications are handled one at a time: the debounce test of Rebalance reads the balancing state before taking the lock, so every listener that reaches Stream.Rebalance is subscribed serialised (SubscribeAsync(…, transactional=true) or synchronous Subscribe)", Run: c11r9},
 		},
 	})
 }
@@ -383,5 +384,80 @@ func c11r7(c *Ctx, id string) {
 	}
 	if n == 0 {
 		c.Undecided(id, "listener", 0, "no bus subscription in the root package")
+	}
+}
+
+// c11r9: bus notifications of one burst are handled one after the other. Rebalance decides "already balancing → only
+// touch the timer" from fields it reads before rebalanceLock.Lock; two handlers running concurrently both pass that
+// test and the second performs a full second close/reopen. EventBus runs the handlers of SubscribeAsync concurrently
+// unless the subscription is transactional.
+func c11r9(c *Ctx, id string) {
+	w := c.W
+	rb := w.Method("stream", "stream", "Rebalance")
+	c.need(rb != nil, id, "stream.stream.Rebalance")
+	c.see(rb)
+	bal := w.Field("stream", "stream", "balancing")
+	c.need(bal != nil, id, "stream.stream.balancing")
+	// is the debounce test under the lock?
+	var lock ssa.Instruction
+	allInstrs(rb, func(in ssa.Instruction) {
+		if cc := callOf(in); cc != nil && strings.HasSuffix(calleeName(cc), "Mutex).Lock") && lock == nil {
+			lock = in
+		}
+	})
+	unlocked := 0
+	allInstrs(rb, func(in ssa.Instruction) {
+		if v, ok := in.(ssa.Value); ok {
+			if f, _ := flagRead(v); f == bal {
+				if lock == nil || !dominatesInstr(lock, in) {
+					unlocked++
+				}
+			}
+		}
+	})
+	if unlocked == 0 {
+		c.OK(id, "serialised", rb.Pos(), "Rebalance reads the balancing state only under its lock: concurrent handlers are harmless")
+		return
+	}
+	n := 0
+	for _, fn := range w.ModFuncs {
+		allInstrs(fn, func(in ssa.Instruction) {
+			cc := callOf(in)
+			if cc == nil || !cc.IsInvoke() || !strings.HasPrefix(cc.Method.Name(), "Subscribe") || !strings.HasSuffix(shortType(cc.Value.Type()), "EventBus.Bus") {
+				return
+			}
+			m := w.boundMethodOf(unwrap(cc.Args[1]))
+			if mi, ok := cc.Args[1].(*ssa.MakeInterface); ok && m == nil {
+				m = w.boundMethodOf(mi.X)
+			}
+			if m == nil {
+				return // C11.R7 reports unresolved listeners
+			}
+			reaches := false
+			for f := range w.syncCallees(m, 2, false) {
+				allInstrs(f, func(x ssa.Instruction) {
+					if c2 := callOf(x); c2 != nil && (isInvokeOf(c2, "Stream", "Rebalance") || c2.StaticCallee() == rb) {
+						reaches = true
+					}
+				})
+			}
+			if !reaches {
+				return
+			}
+			n++
+			ok := true
+			how := cc.Method.Name()
+			switch {
+			case strings.Contains(cc.Method.Name(), "Async"):
+				ok = len(cc.Args) == 3 && w.Origin(cc.Args[2]) == "const(true)"
+				if len(cc.Args) == 3 {
+					how += "(transactional=" + w.Origin(cc.Args[2]) + ")"
+				}
+			}
+			c.Check(ok, id, "serialised@"+fname(fn), in.Pos(), how+": handlers of this listener run one at a time", how+": the listener that calls Stream.Rebalance may run concurrently with itself, while Rebalance reads the balancing state before its lock ("+fmt.Sprint(unlocked)+" unlocked reads): two notifications of one burst both close and reopen the stream")
+		})
+	}
+	if n == 0 {
+		c.Undecided(id, "serialised", rb.Pos(), "no bus subscription whose listener reaches Stream.Rebalance")
 	}
 }
